@@ -198,6 +198,9 @@ type Origins struct {
 
 	// cutEdges: CFG edges assumed not taken (a path condition); reaching stores and phis ignore them.
 	cutEdges map[Edge]bool
+
+	idxMapMemo map[*ssa.Lookup]*Ex
+	idxMapElem map[*ssa.Lookup]bool // the index map stores the elements themselves
 }
 
 // WithCut returns a fresh context of the same function and calling context in which the given edges are
@@ -487,6 +490,14 @@ func (o *Origins) extract(x *ssa.Extract) *Ex {
 	case *ssa.Call:
 		return o.callEx(t, x.Index)
 	case *ssa.Lookup:
+		if x.Index == 0 {
+			if e := o.indexMapSearch(t); e != nil {
+				if o.idxMapElem[t] {
+					return mk("index", "", e.Args[0], e) // the matching element itself
+				}
+				return e
+			}
+		}
 		l := mk("lookup", "", o.Of(t.X), o.Of(t.Index))
 		if x.Index == 0 {
 			return l
@@ -1735,4 +1746,101 @@ func emptySliceInit(v ssa.Value) bool {
 		return ok && n == 0
 	}
 	return false
+}
+
+// indexMapSearch: `idx, ok := m[k]` where m was built as a position index of a list,
+//
+//	m := map[K]int{}; for i := range list { [if _, seen := m[key(list[i])]; !seen] { m[key(list[i])] = i } }
+//
+// (in this function or in a helper that is new on this tree and returns the map) is the keyed form of
+// slices.IndexFunc(list, func(x) bool { return key(x) == k }): idx is a position of a matching element and
+// ok says whether one exists. idx gets the canonical search expression; the fact of ok is rewritten by
+// condFact to "0 <= search" / "search < 0".
+func (o *Origins) indexMapSearch(lk *ssa.Lookup) *Ex {
+	if !lk.CommaOk {
+		return nil
+	}
+	if e, ok := o.idxMapMemo[lk]; ok {
+		return e
+	}
+	if o.idxMapMemo == nil {
+		o.idxMapMemo = map[*ssa.Lookup]*Ex{}
+	}
+	o.idxMapMemo[lk] = nil
+	var mm *ssa.MakeMap
+	ctx := o
+	switch v := lk.X.(type) {
+	case *ssa.MakeMap:
+		mm = v
+	case *ssa.Call:
+		g := v.Call.StaticCallee()
+		if g == nil || g.Blocks == nil || g.Parent() != nil || !o.p.IsNewFunc(g) || o.depth >= 4 {
+			return nil
+		}
+		for _, r := range Returns(g) {
+			if len(r.Results) != 1 {
+				return nil
+			}
+			m2, ok := r.Results[0].(*ssa.MakeMap)
+			if !ok || (mm != nil && mm != m2) {
+				return nil
+			}
+			mm = m2
+		}
+		ctx = o.Enter(g, v)
+	}
+	if mm == nil || mm.Referrers() == nil {
+		return nil
+	}
+
+	var upd *ssa.MapUpdate
+	for _, ref := range *mm.Referrers() {
+		switch r := ref.(type) {
+		case *ssa.MapUpdate:
+			if r.Map != ssa.Value(mm) || upd != nil {
+				return nil
+			}
+			upd = r
+		case *ssa.Lookup, *ssa.Return, *ssa.DebugRef:
+		case *ssa.Call:
+			// len(m) and the like
+			if _, isB := r.Call.Value.(*ssa.Builtin); !isB {
+				return nil
+			}
+			if bi := r.Call.Value.(*ssa.Builtin); bi.Name() != "len" {
+				return nil
+			}
+		default:
+			return nil
+		}
+	}
+	if upd == nil {
+		return nil
+	}
+	l := ctx.Loops.byIndex[upd.Value]
+	elemMode := false
+	if l == nil {
+		// the element itself is stored: m[key(x)] = x for x ranging over the list
+		l = ctx.Loops.InnermostContaining(upd.Block())
+		if l == nil || l.RangeOf == nil || ctx.Of(upd.Value).String() != "elem("+ctx.Of(l.RangeOf).String()+")" {
+			return nil
+		}
+		elemMode = true
+	} else if b, ok := mm.Type().Underlying().(*types.Map).Elem().Underlying().(*types.Basic); !ok || b.Kind() != types.Int {
+		return nil
+	}
+	if l.RangeOf == nil || !l.Blocks[upd.Block()] {
+		return nil
+	}
+	if ctx == o && l.Blocks[lk.Block()] {
+		return nil // the "already indexed?" test inside the building loop
+	}
+	pred := mk("bin", "==", ctx.Of(upd.Key), o.Of(lk.Index))
+	e := &Ex{K: "call", S: "slices.IndexFunc", Args: []*Ex{ctx.Of(l.RangeOf), mk("pred", "", pred)}, Idx: -1, V: lk}
+	o.idxMapMemo[lk] = e
+	if o.idxMapElem == nil {
+		o.idxMapElem = map[*ssa.Lookup]bool{}
+	}
+	o.idxMapElem[lk] = elemMode
+	return e
 }
